@@ -6,6 +6,7 @@ import (
 )
 
 type Gen struct {
+	grNames      []string
 	NoSubs       bool
 	Typedefs     bool
 	tdNames      []string
@@ -22,6 +23,41 @@ func (g *Gen) name(p string) string {
 }
 
 func (g *Gen) pick(n int) int { return g.R.Intn(n) }
+
+// grName names a new grouping defined in scope s. One time in four it reuses the name of
+// a grouping defined elsewhere, where that is valid YANG: not in the same scope, not in an
+// enclosing scope, and not at the top level of the same module or one of its submodules
+// (all of which are visible unprefixed). Equal names in different modules are what makes
+// a prefixed reference differ from an unprefixed one.
+func (g *Gen) grName(s *Scope) string {
+	if len(g.grNames) > 0 && g.pick(4) == 0 {
+		name := g.grNames[g.pick(len(g.grNames))]
+		clash := false
+		for sc := s; sc != nil; sc = sc.Parent {
+			for _, gr := range sc.Groupings {
+				if gr.Name == name {
+					clash = true
+				}
+			}
+		}
+		fam := s.File.Module()
+		for _, f := range append([]*Mod{fam}, g.Mods...) {
+			if f == fam || f.Module() == fam {
+				for _, gr := range f.Body.Groupings {
+					if gr.Name == name {
+						clash = true
+					}
+				}
+			}
+		}
+		if !clash {
+			return name
+		}
+	}
+	n := g.name("g")
+	g.grNames = append(g.grNames, n)
+	return n
+}
 
 func boolp(b bool) *bool { return &b }
 
@@ -218,7 +254,7 @@ func (g *Gen) fillScope(s *Scope, c ctx, budget int) {
 	}
 	// nested groupings occasionally
 	if c.depth < 3 && allowGrouping[c.pk] && g.pick(5) == 0 {
-		gr := &Grouping{Name: g.name("g"), Body: &Scope{Parent: s, File: s.File}}
+		gr := &Grouping{Name: g.grName(s), Body: &Scope{Parent: s, File: s.File}}
 		s.Groupings = append(s.Groupings, gr)
 		g.fillScope(gr.Body, ctx{inRPC: c.inRPC, depth: c.depth + 1, inGroup: true, pk: "grouping"}, 3)
 	}
@@ -352,7 +388,9 @@ func (g *Gen) node(s *Scope, c ctx) *Node {
 		n.Type = g.typeRef(s)
 	case "container", "case":
 		n.Body = sub()
-		g.fillScope(n.Body, ctx{inRPC: c.inRPC, depth: c.depth + 1, inGroup: c.inGroup, pk: k}, 3)
+		if g.pick(6) > 0 { // one in six stays childless (an "extension point" for augments)
+			g.fillScope(n.Body, ctx{inRPC: c.inRPC, depth: c.depth + 1, inGroup: c.inGroup, pk: k}, 3)
+		}
 	case "list":
 		n.Body = sub()
 		kn := g.name("k")
@@ -369,15 +407,21 @@ func (g *Gen) node(s *Scope, c ctx) *Node {
 	case "anyxml":
 	case "notification":
 		n.Body = sub()
-		g.fillScope(n.Body, ctx{inRPC: true, depth: c.depth + 1, inGroup: c.inGroup, pk: "notification"}, 2)
+		if g.pick(6) > 0 {
+			g.fillScope(n.Body, ctx{inRPC: true, depth: c.depth + 1, inGroup: c.inGroup, pk: "notification"}, 2)
+		}
 	case "rpc", "action":
 		if g.pick(3) > 0 {
 			n.Input = &Node{Kind: "input", Name: "input", Body: sub()}
-			g.fillScope(n.Input.Body, ctx{inRPC: true, depth: c.depth + 1, inGroup: c.inGroup, pk: "input"}, 2)
+			if g.pick(6) > 0 {
+				g.fillScope(n.Input.Body, ctx{inRPC: true, depth: c.depth + 1, inGroup: c.inGroup, pk: "input"}, 2)
+			}
 		}
 		if g.pick(3) > 0 {
 			n.Output = &Node{Kind: "output", Name: "output", Body: sub()}
-			g.fillScope(n.Output.Body, ctx{inRPC: true, depth: c.depth + 1, inGroup: c.inGroup, pk: "output"}, 2)
+			if g.pick(6) > 0 {
+				g.fillScope(n.Output.Body, ctx{inRPC: true, depth: c.depth + 1, inGroup: c.inGroup, pk: "output"}, 2)
+			}
 		}
 	}
 	return n
@@ -422,7 +466,7 @@ func (g *Gen) Build() {
 			}
 			// top-level groupings + content
 			for q := g.pick(3); q > 0; q-- {
-				gr := &Grouping{Name: g.name("g"), Body: &Scope{Parent: s.Body, File: s}}
+				gr := &Grouping{Name: g.grName(s.Body), Body: &Scope{Parent: s.Body, File: s}}
 				s.Body.Groupings = append(s.Body.Groupings, gr)
 				g.fillScope(gr.Body, ctx{depth: 1, inGroup: true, pk: "grouping"}, 3)
 			}
@@ -432,7 +476,7 @@ func (g *Gen) Build() {
 			g.Mods = append(g.Mods, s)
 		}
 		for q := g.pick(4); q > 0; q-- {
-			gr := &Grouping{Name: g.name("g"), Body: &Scope{Parent: m.Body, File: m}}
+			gr := &Grouping{Name: g.grName(m.Body), Body: &Scope{Parent: m.Body, File: m}}
 			m.Body.Groupings = append(m.Body.Groupings, gr)
 			g.fillScope(gr.Body, ctx{depth: 1, inGroup: true, pk: "grouping"}, 3)
 		}
